@@ -80,6 +80,14 @@ def run(chk, prog):
                 pos = [(m, c) for m, c in form.items() if c == 1]
                 neg = [(m, c) for m, c in form.items() if c == -1]
                 retained = P("retained")
+
+                def is_imp_weight(atom):
+                    a = unstack(atom)
+                    return is_t(a, "proj") and a[2] == 1 and is_mcall(a[1], "importance") and a[1][1][1] == TGT
+
+                posw = [next(iter(m)) for m, c in pos if len(m) == 1]
+                chk.require(len(posw) == 1 and is_imp_weight(posw[0]) if (meth == "run_smc" or qarm) else True, "WEIGHT-INF", inst + "/target-term", "the target term is the IMPORTANCE WEIGHT returned by target.importance (not the trace score)",
+                            derived=show(posw[0])[:200] if posw else show_lin(form)[:200], expected="target.importance(key, choices)[1]", where=where)
                 # which importance calls carry the constraint?
                 def constraint_of(c):
                     return c[2][1] if len(c[2]) >= 2 else None
